@@ -71,12 +71,8 @@ Proof. vm_compute. split; reflexivity. Qed.
    _mx, has seen no stop request, nothing is due), request_stop() sets the flag and its callback calls notify_all()
    WITHOUT taking _mx, then the worker blocks: with a plain condition_variable the notification found no waiter and
    the worker sleeps until its deadline — for ever on an empty heap, so ~scheduler never returns. *)
-Definition stop_in_window (w : wst) : wst :=
-  mkW (w_sched w) (w_now w) (w_mode w) true (w_done w) (w_err w).
-
 Example regress_stop_lost_wakeup :
-  let w := wstep wst0 WIter in
-  w_mode w = WWait None false /\
-  runnable (stop_in_window w) = false /\
-  runnable (wstep w WStop) = true.
-Proof. vm_compute. repeat split. Qed.
+  w_mode (wrun false wst0 [WIter; WStop; WBlock; WIter; WTick 1000000; WIter; WBlock; WIter]) = WWait None false /\
+  w_mode (wrun true wst0 [WIter; WStop; WBlock; WIter]) = WFin.
+Proof. vm_compute. split; reflexivity. Qed.
+(* the universally quantified versions are Timer2Proofs.lost_stop_old / stop_ends_worker *)
